@@ -298,6 +298,13 @@ def check_detector(run, db):
     return n
 
 
+def check_failed_growth(run, db):
+    """a temporary_allocator scope in which growing the stack fails leaves the stack as it was: the temporary stack's block
+    source and arena write nothing before the request for memory fails (shared rule R-THROW.7 of C03)"""
+    from rules import c03, c05
+    return c03.check_failed_growth(c05._Renamed(run, 'R-TS14.fail'), db, only=('detail::temporary_block_allocator', 'memory_arena', 'memory_stack'))
+
+
 def check_cas(run, db):
     """adopting a stack another thread left behind: every compare-exchange on an in_use_ flag expects `false` and stores `true`.
     The expected-value object is written back by a failed exchange, so the only definitions of it that may reach an exchange are
@@ -368,6 +375,7 @@ def run(run):
     run.rule('R-TS14.exit', 'process-exit cleanup', floor=2)
     run.rule('R-TS14.get', 'one stack per thread', floor=2)
     run.rule('R-TS14.detector', 'every thread that obtains a stack has its exit detector instantiated', floor=2)
+    run.rule('R-TS14.fail', 'a failed growth leaves the temporary stack unchanged', floor=3)
     run.rule('R-TS14.cas', 'a stack is adopted only through in_use_: false -> true', floor=1)
     run.explanation = ('Typestate / who-may-write rules over src/temporary_allocator.cpp in temporary-stack mode 2. Linearizability of the lock-free '
                        'list, reuse fairness and races on a stack while it is adopted are schedule-level facts and need a model checker (another family).')
@@ -384,6 +392,8 @@ def run(run):
         check_get(run, db)
         if check_detector(run, db) < 2:
             run.broke('no function stores create() in the thread\'s stack pointer [%s]' % cfg)
+        if check_failed_growth(run, db) < 3:
+            run.broke('temporary stack growth functions not found [%s]' % cfg)
         if check_cas(run, db) < 1:
             fu = [f for f in tmp_fns(db) if f.short == 'find_unused']
             if not fu:
